@@ -13,11 +13,11 @@ from .common import Outcome, Part, viol, call
 from . import c16
 
 LEVEL = "model_checking"
-RULE = ("E1: 5 key sets (sizes 1..5, mixed types, two keys of one type, explicit and thumbprint kids, a member without kid at "
+RULE = ("E1: 7 key sets (sizes 1..5, mixed types, two keys of one type, explicit, non-ASCII and thumbprint kids, members imported from dicts or cold from native encodings with the kid as a key parameter, a member without kid at "
         "construction) x token kid (that of each member, absent, unknown, '') x kid position (protected / unprotected / per-recipient) "
         "x sign, verify, encrypt, decrypt x serializations x set given directly / through a callable; the random pick is a seam, every "
         "candidate is explored; ECDH-1PU sender sets with skid; import/export of sets. E2: BFS (depth 3) over a shared KeySet: sign "
-        "without kid, verify a member's token, lookups, export, in-place rotation, append, remove; invariants on which key is used.")
+        "without kid, verify a member's token, lookups of current and of removed members (separately), export, in-place rotation, append (a used key; an untouched native key with its own kid), remove; invariants on which key is used.")
 ASSUMPTIONS = ["key sets used for 'sign/encrypt without kid' hold, per key type, only keys that suit the algorithm exercised",
                "KeySet.keys is a public list the caller may rotate in place (the test suite appends to it)"]
 
@@ -28,6 +28,7 @@ SETS = {
     "five-mixed": [("oct32", 0, "s0"), ("oct32", 1, "s1"), ("P-256", 0, None), ("P-256", 1, "e1"), ("rsa", 0, None)],
     "two-ed": [("Ed25519", 0, None), ("Ed25519", 1, "ed-b")],
     "x-and-rsa": [("X25519", 0, "x-a"), ("X25519", 1, None), ("rsa", 1, "r")],
+    "unicode-kids": [("oct32", 0, "schl\u00fcssel-1"), ("P-256", 0, "\u9375"), ("oct32", 1, "plain-after-unicode")],
 }
 SIG_ALG = {"oct": "HS256", "EC": "ES256", "RSA": "RS256", "OKP": "EdDSA"}
 ENC_ALG = {"oct": "A256KW", "EC": "ECDH-ES+A128KW", "RSA": "RSA-OAEP", "OKP": "ECDH-ES"}
@@ -43,11 +44,15 @@ def members(name):
     return out
 
 
-def build_set(name, private=True, as_callable=False):
+def build_set(name, private=True, as_callable=False, native=False):
     from joserfc.jwk import KeySet
     keys = []
     for m in members(name):
         src = m["jwk"] if (private or m["jwk"]["kty"] == "oct") else rjwk.public_of(m["jwk"])
+        if native:
+            # cold members: imported from the native encoding, the explicit kid given as a key parameter
+            keys.append(A.jkey(src, "bytes" if src["kty"] == "oct" else "pem", private=private, params={"kid": m["explicit"]} if m["explicit"] else None))
+            continue
         if m["explicit"]:
             src = {**src, "kid": m["explicit"]}
         keys.append(A.jkey(src, "dict"))
@@ -72,14 +77,15 @@ def h_consume(ctx):
     if not cands:
         return Outcome("n/a", [], nontrivial=None)
     i = ctx.choose("signer", cands)
-    kid_opts = [("member", j) for j in range(len(ms))] + [("absent", None), ("unknown", "no-such-kid"), ("blank", "")]
+    kid_opts = [("member", j) for j in range(len(ms))] + [("absent", None), ("unknown", "no-such-kid"), ("unknown", "cl\u00e9-inconnue"), ("blank", "")]
     kk, kv = ctx.choose("token_kid", kid_opts)
     path = ctx.choose("path", ["compact", "flattened", "general"])
     pos = ctx.choose("kid_position", ["protected"] + (["unprotected"] if path != "compact" else []) + (["recipient"] if family == "jwe" and path != "compact" else []))
     as_callable = ctx.choose("set_given", ["directly", "callable"]) == "callable"
+    native = ctx.choose("member_form", ["dict", "native+kid-parameter"]) != "dict"
     m = ms[i]
     kid = ms[kv]["kid"] if kk == "member" else kv
-    arg, ks = build_set(sname, private=True, as_callable=as_callable)
+    arg, ks = build_set(sname, private=True, as_callable=as_callable, native=native)
     if family == "jws":
         alg = SIG_ALG[m["jwk"]["kty"]]
         prot, hdr = {"alg": alg}, None
@@ -140,7 +146,7 @@ def h_consume(ctx):
                 vs.append(viol(f"{family} consume of a token without kid fails against a single-key set ({path})", f"{what}: {r.exc!r}"))
         elif r.ok:
             vs.append(viol(f"{family} consume of a token without kid succeeds against a set of {len(ms)} keys ({path})", what))
-    return Outcome(f"{kk}:{'ok' if r.ok else 'rej:' + r.etype}", vs, nontrivial=(sname, family, i, kk, kv, path, pos, as_callable))
+    return Outcome(f"{kk}:{'ok' if r.ok else 'rej:' + r.etype}", vs, nontrivial=(sname, family, i, kk, kv, path, pos, as_callable, native))
 
 
 def h_consume_multi(ctx):
@@ -428,8 +434,9 @@ def h_sets(ctx):
 # ------------------------------------------------------------------ E2: a shared KeySet over time
 class SetModel:
     fresh_import = False
-    MENU = ["sign-nokid-pick0", "sign-nokid-pick-last", "verify-member0", "verify-last", "lookup-all", "export-public",
-            "rotate-first-in-place", "rotate-last-in-place", "append-new", "remove-first", "encrypt-nokid-pick0", "decrypt-last"]
+    MENU = ["sign-nokid-pick0", "sign-nokid-pick-last", "verify-member0", "verify-last", "lookup-all", "lookup-removed", "export-public",
+            "rotate-first-in-place", "rotate-last-in-place", "append-new", "append-untouched-with-own-kid", "remove-first", "encrypt-nokid-pick0",
+            "decrypt-last"]
 
     def __init__(self, kind):
         self.kind = kind
@@ -441,19 +448,22 @@ class SetModel:
         from joserfc.jwk import KeySet
         jwks = [scen.key(self.kind, i) for i in range(3)]
         ks = KeySet([A.jkey(j, "dict") for j in jwks])
-        return {"ks": ks, "jwks": jwks, "next": 3, "removed": []}
+        tp = lambda j: rjwk.thumbprint(rjwk.public_of(j))  # noqa
+        # ms: the members the set is supposed to hold now, each with the kid it is known under
+        return {"ks": ks, "ms": [{"jwk": j, "kid": tp(j)} for j in jwks], "next": 3, "removed": []}
 
-    def _tok(self, jwk, kid):
-        seg = b64.enc(rjws.hdr_json({"alg": self.alg, "kid": kid}).encode())
-        return seg + "." + b64.enc(b"p") + "." + b64.enc(jws_sign(self.alg, jwk, rjws.signing_input(seg, b"p", True)))
+    def _tok(self, m):
+        seg = b64.enc(rjws.hdr_json({"alg": self.alg, "kid": m["kid"]}).encode())
+        return seg + "." + b64.enc(b"p") + "." + b64.enc(jws_sign(self.alg, m["jwk"], rjws.signing_input(seg, b"p", True)))
 
     def apply(self, st, op):
         from joserfc import jws, jwe
         from joserfc.jwk import KeySet
-        ks, jwks = st["ks"], st["jwks"]
+        from joserfc.errors import InvalidKeyIdError
+        ks, ms = st["ks"], st["ms"]
         tp = lambda j: rjwk.thumbprint(rjwk.public_of(j))  # noqa
         out = {"op": op, "viol": []}
-        cur_kids = [tp(j) for j in jwks]
+        cur_kids = [m["kid"] for m in ms]
         if op.startswith(("sign-nokid", "encrypt-nokid")):
             seam.install()
             last = op.endswith("last")
@@ -476,7 +486,7 @@ class SetModel:
                 if th.get("kid") not in cur_kids:
                     out["viol"].append(("token produced from the set names a key that is not (or no longer) in the set", f"kid {th.get('kid')} not in {cur_kids}"))
                 else:
-                    j = jwks[cur_kids.index(th["kid"])]
+                    j = ms[cur_kids.index(th["kid"])]["jwk"]
                     try:
                         if op.startswith("sign"):
                             rjws.verify_compact(r.value, rjwk.public_of(j) if j["kty"] != "oct" else j)
@@ -490,57 +500,66 @@ class SetModel:
                         if not c.ok:
                             out["viol"].append(("token produced from the set is not verified by the set's own public export", repr(c.exc)))
         elif op in ("verify-member0", "verify-last"):
-            j = jwks[0 if op == "verify-member0" else -1]
-            c = call(jws.deserialize_compact, self._tok(j, tp(j)), ks, algorithms=[self.alg])
+            m = ms[0 if op == "verify-member0" else -1]
+            c = call(jws.deserialize_compact, self._tok(m), ks, algorithms=[self.alg])
             if not c.ok:
                 out["viol"].append(("a current member's token is rejected (kid lookup)", repr(c.exc)))
         elif op == "decrypt-last":
             if self.ealg:
-                j = jwks[-1]
-                tok = rjwe.encrypt({"alg": self.ealg, "enc": "A128GCM", "kid": tp(j)}, b"p", [{"jwk": j if j["kty"] == "oct" else rjwk.public_of(j)}], rand=rjwe.Drbg(b"d"))
+                m = ms[-1]
+                j = m["jwk"]
+                tok = rjwe.encrypt({"alg": self.ealg, "enc": "A128GCM", "kid": m["kid"]}, b"p", [{"jwk": j if j["kty"] == "oct" else rjwk.public_of(j)}], rand=rjwe.Drbg(b"d"))
                 c = call(jwe.decrypt_compact, tok, ks, algorithms=[self.ealg, "A128GCM"])
                 if not c.ok or c.value.plaintext != b"p":
                     out["viol"].append(("a current member's JWE is not decrypted (kid lookup)", repr(c.exc)))
         elif op == "lookup-all":
-            from joserfc.errors import InvalidKeyIdError
-            for j in jwks:
-                c = call(ks.get_by_kid, tp(j))
+            for m in ms:
+                j = m["jwk"]
+                c = call(ks.get_by_kid, m["kid"])
                 if not c.ok or rjwk.thumbprint(rjwk.public_of(rjwk.export(c.value.raw_value, False) if j["kty"] != "oct" else {"kty": "oct", "k": b64.enc(c.value.raw_value)})) != tp(j):
-                    out["viol"].append(("lookup by kid does not return the member with that kid", f"{tp(j)}: {c.exc!r}"))
-            for j in st["removed"]:
-                c = call(ks.get_by_kid, tp(j))
-                if c.ok:
-                    out["viol"].append(("lookup by kid returns a key that was removed from the set", tp(j)))
-                    # and a token of the removed key must not verify
-                t = call(jws.deserialize_compact, self._tok(j, tp(j)), ks, algorithms=[self.alg])
+                    out["viol"].append(("lookup by kid does not return the member with that kid", f"{m['kid']}: {c.exc!r}"))
+        elif op == "lookup-removed":
+            # on its own, so that no lookup of a current member comes between the removal and this one
+            for m in st["removed"]:
+                t = call(jws.deserialize_compact, self._tok(m), ks, algorithms=[self.alg])
                 if t.ok:
-                    out["viol"].append(("a token of a removed key is still verified", tp(j)))
+                    out["viol"].append(("a token of a removed key is still verified", m["kid"]))
                 elif not isinstance(t.exc, InvalidKeyIdError):
                     out["viol"].append(("token naming a removed kid is not reported as invalid-key-id", repr(t.exc)))
+                c = call(ks.get_by_kid, m["kid"])
+                if c.ok:
+                    out["viol"].append(("lookup by kid returns a key that was removed from the set", m["kid"]))
         elif op == "export-public":
             d = call(ks.as_dict)
             if d.ok and [e.get("kid") for e in d.value["keys"]] != cur_kids:
                 out["viol"].append(("key set export does not list the current members", f"{[e.get('kid') for e in d.value['keys']]} vs {cur_kids}"))
-        elif op in ("rotate-first-in-place", "rotate-last-in-place", "append-new", "remove-first"):
+        elif op in ("rotate-first-in-place", "rotate-last-in-place", "append-new", "append-untouched-with-own-kid", "remove-first"):
             if op == "remove-first":
-                if len(jwks) > 1:
-                    st["removed"].append(jwks.pop(0))
+                if len(ms) > 1:
+                    st["removed"].append(ms.pop(0))
                     ks.keys.pop(0)
             else:
                 nj = scen.key(self.kind, st["next"])
                 st["next"] += 1
-                used = [tp(j) for j in jwks] + [tp(j) for j in st["removed"]]
+                used = [tp(m["jwk"]) for m in ms] + [tp(m["jwk"]) for m in st["removed"]]
                 if tp(nj) in used:
                     return out      # the pool of distinct fixture keys of this kind is exhausted: not a new key, skip
+                if op == "append-untouched-with-own-kid":
+                    # a key imported from its native encoding, its kid given as a key parameter, handed over without any earlier use
+                    kid = f"rotation-{st['next']}"
+                    nk = A.jkey(nj, "bytes" if nj["kty"] == "oct" else "pem", params={"kid": kid})
+                    ms.append({"jwk": nj, "kid": kid})
+                    ks.keys.append(nk)
+                    return out
                 nk = A.jkey(nj, "dict")
                 nk.ensure_kid()
                 if op == "append-new":
-                    jwks.append(nj)
+                    ms.append({"jwk": nj, "kid": tp(nj)})
                     ks.keys.append(nk)
                 else:
-                    idx = 0 if op == "rotate-first-in-place" else len(jwks) - 1
-                    st["removed"].append(jwks[idx])
-                    jwks[idx] = nj
+                    idx = 0 if op == "rotate-first-in-place" else len(ms) - 1
+                    st["removed"].append(ms[idx])
+                    ms[idx] = {"jwk": nj, "kid": tp(nj)}
                     ks.keys[idx] = nk
         return out
 
